@@ -38,6 +38,7 @@ VARIABLES hunt,      \* sequence of [mac, ip]                  Handler6.huntList
           routers,   \* RouterIPs -> RouterMACs \cup {NilMAC}    Handler6.LANRouters (NilMAC: not learned)
           raCount,   \* 0..3: RAs seen since the last processed one (process global `repeat`)
           closed, panicked,
+          captured,  \* environment: MACs flagged with Session.Capture (must not matter to the handler)
           out,       \* frames emitted by the last step
           ev,        \* observable record of the last step
           refHunt,   \* property level: MACs hunted according to the call log and the filter rules
@@ -46,9 +47,9 @@ VARIABLES hunt,      \* sequence of [mac, ip]                  Handler6.huntList
           rl,        \* property level: per loop id [mac, alive, snap, snapClosed, fresh]
           pre        \* property level: facts about the state before the last step
 
-mech == <<hunt, loops, routers, raCount, closed, panicked, out, ev>>
+mech == <<hunt, loops, routers, raCount, closed, panicked, captured, out, ev>>
 prop == <<refHunt, refClosed, refRouters, rl, pre>>
-vars == <<hunt, loops, routers, raCount, closed, panicked, out, ev, refHunt, refClosed, refRouters, rl, pre>>
+vars == <<hunt, loops, routers, raCount, closed, panicked, captured, out, ev, refHunt, refClosed, refRouters, rl, pre>>
 
 Range(s) == {s[i] : i \in 1..Len(s)}
 HuntMacs == {hunt[i].mac : i \in 1..Len(hunt)}
@@ -66,7 +67,7 @@ SetToSeqs(S) == IF S = {} THEN {<<>>} ELSE UNION {{<<x>> \o s : s \in SetToSeqs(
 (* mechanism *)
 
 StartHuntM(m, ip) ==
-  /\ UNCHANGED <<routers, raCount, closed, panicked>> /\ out' = <<>>
+  /\ UNCHANGED <<routers, raCount, closed, panicked, captured>> /\ out' = <<>>
   /\ IF ip \in V4s
      THEN /\ UNCHANGED <<hunt, loops>>
           /\ ev' = [kind |-> "start", mac |-> m, ip |-> ip, err |-> TRUE, spawned |-> 0]
@@ -80,7 +81,7 @@ StartHuntM(m, ip) ==
 
 \* n overlapping StartHunt(m, ip) calls observed together: the mutex serialises them
 ConcStartM(m, ip, n) ==
-  /\ UNCHANGED <<routers, raCount, closed, panicked>> /\ out' = <<>>
+  /\ UNCHANGED <<routers, raCount, closed, panicked, captured>> /\ out' = <<>>
   /\ IF ip \in V4s
      THEN /\ UNCHANGED <<hunt, loops>>
           /\ ev' = [kind |-> "cstart", mac |-> m, ip |-> ip, n |-> n, errs |-> n, spawned |-> 0]
@@ -94,13 +95,13 @@ ConcStartM(m, ip, n) ==
 
 \* AddrList.Del: by MAC, order of the others preserved
 StopHuntM(m, ip) ==
-  /\ UNCHANGED <<loops, routers, raCount, closed, panicked>> /\ out' = <<>>
+  /\ UNCHANGED <<loops, routers, raCount, closed, panicked, captured>> /\ out' = <<>>
   /\ hunt' = IF Effective(ip) THEN SelectSeq(hunt, LAMBDA e : e.mac # m) ELSE hunt
   /\ ev' = [kind |-> "stop", mac |-> m, ip |-> ip]
 
 \* Close closes the current channel: every sleeping loop wakes up
 CloseM ==
-  /\ UNCHANGED <<hunt, loops, routers, raCount, panicked>> /\ out' = <<>>
+  /\ UNCHANGED <<hunt, loops, routers, raCount, panicked, captured>> /\ out' = <<>>
   /\ closed' = TRUE
   /\ ev' = [kind |-> "close", stuck |-> {}]
 \* Since 96b01bc a loop reads the wake channel under the mutex at its check: every loop past its check (sending
@@ -108,14 +109,14 @@ CloseM ==
 Awake(ls) == [i \in 1..Len(ls) |-> IF ls[i].pc = "sleep" THEN [ls[i] EXCEPT !.pc = "check", !.woken = FALSE]
                                     ELSE IF ls[i].pc = "send" THEN [ls[i] EXCEPT !.woken = TRUE] ELSE ls[i]]
 CloseAndWakeM ==
-  /\ UNCHANGED <<hunt, routers, raCount, panicked>> /\ out' = <<>>
+  /\ UNCHANGED <<hunt, routers, raCount, panicked, captured>> /\ out' = <<>>
   /\ closed' = TRUE /\ loops' = Awake(loops)
   /\ ev' = [kind |-> "close", stuck |-> {}]
 
 \* icmp6spoof.go:70-125: membership and `closed` under the mutex; the router list is captured there
 LoopCheckM(l) ==
   /\ loops[l].pc = "check"
-  /\ UNCHANGED <<hunt, routers, raCount, closed, panicked>> /\ out' = <<>>
+  /\ UNCHANGED <<hunt, routers, raCount, closed, panicked, captured>> /\ out' = <<>>
   /\ LET inlist == loops[l].mac \in HuntMacs IN
      /\ ev' = [kind |-> "check", l |-> l, hunting |-> inlist, closed |-> closed, router |-> Learned # {},
                 done |-> ~inlist \/ closed]
@@ -128,7 +129,7 @@ LoopCheckM(l) ==
 LoopSendRoundM(l, order, auto) ==
   /\ loops[l].pc = "send"
   /\ order \in SetToSeqs(loops[l].list)
-  /\ UNCHANGED <<hunt, routers, raCount, closed, panicked>>
+  /\ UNCHANGED <<hunt, routers, raCount, closed, panicked, captured>>
   /\ out' = [i \in 1..Len(order) |-> NA(loops[l].mac, loops[l].dst, order[i])]
   /\ loops' = IF auto /\ (loops[l].woken \/ closed) THEN [loops EXCEPT ![l].pc = "check", ![l].woken = FALSE, ![l].list = {}]
               ELSE [loops EXCEPT ![l].pc = "sleep", ![l].woken = loops[l].woken \/ closed, ![l].list = {}]
@@ -137,7 +138,7 @@ LoopSendRoundM(l, order, auto) ==
 \* the 2.0-2.8 s timer / the channel the loop sleeps on is closed
 TimeoutM(l) ==
   /\ loops[l].pc = "sleep"
-  /\ UNCHANGED <<hunt, routers, raCount, closed, panicked>> /\ out' = <<>>
+  /\ UNCHANGED <<hunt, routers, raCount, closed, panicked, captured>> /\ out' = <<>>
   /\ loops' = [loops EXCEPT ![l].pc = "check", ![l].woken = FALSE]
   /\ ev' = [kind |-> "timeout", l |-> l]
 WakeByRAM(l) == (loops[l].woken \/ closed) /\ TimeoutM(l)
@@ -145,7 +146,7 @@ WakeByRAM(l) == (loops[l].woken \/ closed) /\ TimeoutM(l)
 \* icmp6.go:172-227.  kind: "ok" | "badopts" (option list the parser rejects) | "nohost" (Session.Parse
 \* created no host for the source).  wakeAll: the harness observes the woken loops together with the RA.
 RecvRAM(src, mac, kind, wakeAll) ==
-  /\ UNCHANGED <<hunt>> /\ out' = <<>>
+  /\ UNCHANGED <<hunt, captured>> /\ out' = <<>>
   /\ IF Len(hunt) > 0 /\ closed /\ ~SafeWake
      THEN \* close(ch) of the channel Close() already closed
           /\ panicked' = TRUE /\ UNCHANGED <<loops, routers, raCount, closed>>
@@ -161,9 +162,15 @@ RecvRAM(src, mac, kind, wakeAll) ==
              /\ routers' = IF proc /\ kind = "ok" /\ routers[src] = NilMAC THEN [routers EXCEPT ![src] = mac] ELSE routers
              /\ ev' = [kind |-> "ra", src |-> src, err |-> fail, panic |-> FALSE]
 
+\* Session.Capture / Session.Release: environment calls; no effect on the handler
+CaptureM(m, on) ==
+  /\ UNCHANGED <<hunt, loops, routers, raCount, closed, panicked>> /\ out' = <<>>
+  /\ captured' = IF on THEN captured \cup {m} ELSE captured \ {m}
+  /\ ev' = [kind |-> "capture", mac |-> m, on |-> on]
+
 \* every other ICMPv6 type leaves the state alone; an NS for a global address makes us ask too
 RecvOtherM(kind) ==
-  /\ UNCHANGED <<hunt, loops, routers, raCount, closed, panicked>>
+  /\ UNCHANGED <<hunt, loops, routers, raCount, closed, panicked, captured>>
   /\ out' = IF kind = "ns-gua" THEN <<Other(135)>> ELSE <<>>
   /\ ev' = [kind |-> "other", what |-> kind]
 
@@ -216,10 +223,11 @@ Timeout(l)         == TimeoutM(l) /\ IdleR /\ ObserveRouters
 WakeByRA(l)        == WakeByRAM(l) /\ IdleR /\ ObserveRouters
 RecvRA(src, mac, kind) == RecvRAM(src, mac, kind, FALSE) /\ IdleR /\ ObserveRouters
 RecvOther(kind)    == RecvOtherM(kind) /\ IdleR /\ ObserveRouters
+Capture(m, on)     == CaptureM(m, on) /\ IdleR /\ ObserveRouters
 
 InitButCounter ==
   /\ hunt = <<>> /\ loops = <<>> /\ routers = [r \in RouterIPs |-> NilMAC]
-  /\ closed = FALSE /\ panicked = FALSE /\ out = <<>> /\ ev = [kind |-> "init"]
+  /\ closed = FALSE /\ panicked = FALSE /\ captured = {} /\ out = <<>> /\ ev = [kind |-> "init"]
   /\ refHunt = {} /\ refClosed = FALSE /\ refRouters = {} /\ rl = <<>> /\ pre = NoPre
 Init == InitButCounter /\ raCount = 0
 
